@@ -35,7 +35,7 @@ class FalsyPool(RecPool):
         return 0
 
 
-def make_class(sig, base, service_wrapped, cid, recording_star=False, falsy=False):
+def make_class(sig, base, service_wrapped, cid, recording_star=False, falsy=False, parent=None):
     from cobald.interfaces import Controller, PoolDecorator
     params = ["self"]
     for n, d in sig["pos"]:
@@ -62,6 +62,10 @@ def make_class(sig, base, service_wrapped, cid, recording_star=False, falsy=Fals
     bases = {"controller": "Controller", "decorator": "PoolDecorator", "pool": "RecPool"}[base]
     src = "class G%d(%s):\n%s" % (cid, bases, body)
     ns = {"Controller": Controller, "PoolDecorator": PoolDecorator, "RecPool": RecPool, "LOG": LOG}
+    if parent is not None:
+        # a subclass of another generated element class: a template of the subclass builds the subclass
+        src = "class G%d(Parent):\n%s" % (cid, body)
+        ns["Parent"] = parent
     exec(src, ns)
     cls = ns["G%d" % cid]
     if service_wrapped:
@@ -270,11 +274,12 @@ def gen_shipped(rng):
 CHAIN_CLASSES = {}
 
 
-def chain_class(cid, base, svc, falsy=False):
-    key = (cid, base, svc, falsy)
+def chain_class(cid, base, svc, falsy=False, sub_of=None):
+    key = (cid, base, svc, falsy, json.dumps(sub_of, sort_keys=True))
     if key not in CHAIN_CLASSES:
         sig = {"pos": [] if base == "pool" else [["target", False]], "varPos": True, "kwOnly": [], "varKw": True}
-        CHAIN_CLASSES[key] = make_class(sig, base, svc, cid, recording_star=True, falsy=falsy)
+        parent = chain_class(sub_of["ctor"], base, False, bool(sub_of.get("falsy"))) if sub_of else None
+        CHAIN_CLASSES[key] = make_class(sig, base, svc, cid, recording_star=True, falsy=falsy, parent=parent)
     return CHAIN_CLASSES[key]
 
 
@@ -313,6 +318,17 @@ def gen_chain(rng, n=None):
         return {"ctor": cid, "leaf": leaf, "calls": calls, "base": "pool" if leaf else ("decorator" if cid > 0 else rng.choice(["controller", "decorator"])),
                 "service": rng.random() < 0.3, "falsy": rng.random() < 0.12}
     items = [item(False, i) for i in range(n)]
+    # element classes may derive from one another (SoftLimiter(Limiter)): a template of the subclass,
+    # taken after one of its base class - both without arguments, or not - still builds the subclass
+    for i, it in enumerate(items):
+        olders = [o for o in items[:i] if o["base"] == "decorator" and not o["service"] and "sub_of" not in o]
+        if it["base"] == "decorator" and olders and rng.random() < 0.3:
+            o = rng.choice(olders)
+            it["sub_of"] = {"ctor": o["ctor"], "falsy": o["falsy"]}
+            if rng.random() < 0.6:
+                for x in (o, it):
+                    if x["calls"][0]["args"] or x["calls"][0]["kwargs"]:
+                        x["calls"].insert(0, {"args": [], "kwargs": []})
     tail = rng.choice(["pool", "tmpl", "tmpl"])
     items.append({"pool": 999, "falsy": rng.random() < 0.2} if tail == "pool" else item(True, n))
     return {"mode": "chain", "items": items, "tree": gen_tree(rng, 0, n + 1)}
@@ -326,7 +342,7 @@ def build_items(items):
             p._pid = it["pool"]
             objs.append(p)
         else:
-            cls = chain_class(it["ctor"], it["base"], it["service"], bool(it.get("falsy")))
+            cls = chain_class(it["ctor"], it["base"], it["service"], bool(it.get("falsy")), it.get("sub_of"))
             t = None
             for c in it["calls"]:
                 args = [a["id"] for a in c["args"]]
